@@ -47,7 +47,7 @@ def pushSuspender (fut : Nat) (pre post : Option Gen) (just : Option String) (s 
   let idx := s.suspReqs.length
   let rq : SuspReq := { fut := fut, pre := pre, post := post, just := just }
   let startMsg : Msg := { cmd := "_start_suspender", iargs := [(idx : Int)] }
-  let s := { s with suspReqs := s.suspReqs ++ [rq], planStack := Gen.list [startMsg] :: s.planStack,
+  let s := { s with suspReqs := s.suspReqs ++ [rq], planStack := Gen.fresh [startMsg] :: s.planStack,
                     respStack := .none :: s.respStack }
   if s.state != .paused then
     match setState s .suspending with
